@@ -427,7 +427,7 @@ def _ret_blocks(cx, fn):
     return [bi for bi in sorted(cx.prog.A(fn).reach) if fn.body.blocks[bi]["term"]["k"] == "return"]
 
 
-@obligation("LEASE.unstick", ["C10"], floor=2, kind="message template under assumption",
+@obligation("LEASE.unstick", ["C10", "C04", "C01"], floor=2, kind="message template under assumption",
             why="a node that ran ahead in term, or a pre-candidate with a stale term, would otherwise be stuck forever")
 def unstick(cx):
     step = cx.fn("Raft::step")
@@ -447,6 +447,11 @@ def unstick(cx):
             require_all(cx, t.site, tkey(cx, t, "unstick:leader-msg"), "a lower-term MsgAppend/MsgHeartbeat is answered with a bare MsgAppendResponse when check_quorum or pre_vote is on",
                         [("type in {MsgHeartbeat, MsgAppend}", msg_type_in(m, {"MsgHeartbeat", "MsgAppend"})), ("check_quorum or pre_vote", enabled)], kill=False)
             cx.check(t.get("to") == ("field", m, "Message.from"), tkey(cx, t, "unstick:to"), "the reply goes to the sender", t.site)
+            # the reply only carries the (higher) term: a non-reject MsgAppendResponse with an index is an acknowledgement
+            # of that index in the receiver's own log -- nothing of the sender's log was compared with anything here
+            from ..templates import DEFAULT as _D
+            carried = sorted(f_ for f_ in ("index", "commit", "log_term", "reject_hint", "entries") if t.get(f_) not in (_D, ("int", 0)))
+            cx.check(not carried, tkey(cx, t, "unstick:bare"), "the reply to a lower-term leader acknowledges nothing: index, commit, log_term, reject_hint stay unset (set: %s)" % carried, t.site)
             lw = [l for l in cx.guard_lits(t.site) if lower(l)]
             for flag in ("RaftCore.check_quorum", "RaftCore.pre_vote"):
                 for ty in ("MsgHeartbeat", "MsgAppend"):
